@@ -142,7 +142,7 @@ Proof. intros Hw Hc Hi. apply kinv_frame; auto. intros _ i _. rewrite Hi. auto. 
 Lemma Kinv_weffect s w s' : Kinv s -> weffect c s w s' -> Kinv s'.
 Proof.
   intros HK He w'. specialize (HK w') as K.
-  destruct He as [i a t rest Hsrc Hc Hb | Hsrc Hc | i Hsrc Hc Hb Hcl | ctl' Hcn
+  destruct He as [i a t rest Hsrc Hc Hb | Hsrc Hc | i Hsrc Hc Hb Hcl | ctl' Hcn Hdue Hsl Hsls
                  | eof a k0 v rest Hc Hs Hcl | eof k0 t r rest Hc Hb | dropped Hp Hnd Hnr Hnc Hwhy | eof a k0 v rest Hc Hs Hcl].
   - (* take from input i *)
     destruct (Nat.eq_dec w' w) as [->|Hw].
@@ -251,7 +251,7 @@ Proof.
   2:{ destruct He; try (apply prefalse_same with s; simpl; upd_simpl; auto; fail).
       unfold finish. destruct (closer c); [|apply prefalse_close]; apply prefalse_same with s; simpl; upd_simpl; auto. }
   intros Hpre. destruct (P Hpre) as (A & B & C).
-  destruct He as [i a t rest Hsrc Hc Hb | Hsrc Hc | i Hsrc Hc Hb Hcl | ctl' Hcn
+  destruct He as [i a t rest Hsrc Hc Hb | Hsrc Hc | i Hsrc Hc Hb Hcl | ctl' Hcn Hdue Hsl Hsls
                  | eof a k0 v rest Hc Hs Hcl | eof k0 t r rest Hc Hb | dropped Hp Hnd Hnr Hnc Hwhy | eof a k0 v rest Hc Hs Hcl];
     try (exfalso; destruct C as [C|C]; congruence).
   - exfalso. destruct C as [C|C]; rewrite C in Hcn; inversion Hcn as [|? ? ? Hsk|? ? ? ? ? Hsk|]; subst.
@@ -277,6 +277,36 @@ Proof.
     + intros w' Hpre. destruct (Nat.eq_dec w' w) as [->|Hne]; [|simpl; upd_simpl; apply HP; auto].
       exfalso. destruct (HP w Hpre) as (_ & _ & [C|C]); congruence.
     + intros w'. apply prefalse_same with (close_all s0 (closes c)); auto. apply prefalse_close. auto.
+Qed.
+
+
+(* a generator never sees an end of input *)
+Definition noeof (s : state) : Prop := forall w, src c w = SGen -> weof (ws s w) = false.
+
+Theorem noeof_reachable s : reachable c s -> noeof s.
+Proof.
+  apply reachable_inv; [intros w _; reflexivity|].
+  intros s0 e s' HI Hs. destruct (step_effect c s0 e s' Hs) as [_ He].
+  assert (Hsame : (forall w, weof (ws s' w) = weof (ws s0 w)) -> noeof s').
+  { intros E w Hg. rewrite E. apply HI; auto. }
+  destruct He as [i x Hi Hcl | i Hi Hcl | k t v rest Hb | k v w eof a rest Hb Hcap Hcl Hw Hc Hs0 | | | w s'' Hw He
+                 | w a todo Hw Hc | Hcl Had Hcd | t Ht]; try (apply Hsame; reflexivity).
+  - apply Hsame. intros w'. simpl. destruct (Nat.eq_dec w' w) as [->|Hne]; upd_simpl; auto.
+  - destruct He as [i a t rest Hsrc Hc Hb | Hsrc Hc | i Hsrc Hc Hb Hcl | ctl' Hcn Hdue Hsl Hsls
+                   | eof a k0 v rest Hc Hs0 Hcl | eof k0 t r rest Hc Hb | dropped Hp Hnd Hnr Hnc Hwhy | eof a k0 v rest Hc Hs0 Hcl].
+    + apply Hsame. intros w'. simpl. destruct (Nat.eq_dec w' w) as [->|Hne]; upd_simpl; auto.
+      destruct (take_fields c s0 w a) as (_ & T2 & _). exact T2.
+    + apply Hsame. intros w'. simpl. destruct (Nat.eq_dec w' w) as [->|Hne]; upd_simpl; auto.
+      destruct (take_fields c s0 w 0%Z) as (_ & T2 & _). exact T2.
+    + intros w' Hg. simpl. destruct (Nat.eq_dec w' w) as [->|Hne]; upd_simpl; [congruence|apply HI; auto].
+    + apply Hsame. intros w'. simpl. destruct (Nat.eq_dec w' w) as [->|Hne]; upd_simpl; auto.
+    + apply Hsame. intros w'. simpl. destruct (Nat.eq_dec w' w) as [->|Hne]; upd_simpl; auto.
+    + apply Hsame. intros w'. simpl. destruct (Nat.eq_dec w' w) as [->|Hne]; upd_simpl; auto.
+    + apply Hsame. intros w'. unfold finish. destruct (closer c); [|rewrite close_all_ws]; simpl;
+        destruct (Nat.eq_dec w' w) as [->|Hne]; upd_simpl; auto.
+    + apply Hsame. reflexivity.
+  - apply Hsame. intros w'. simpl. destruct (Nat.eq_dec w' w) as [->|Hne]; upd_simpl; auto.
+  - apply Hsame. intros w'. simpl. now rewrite close_all_ws.
 Qed.
 
 End Stop.
